@@ -7,6 +7,7 @@ export CARGO_NET_OFFLINE=true
 ( cd coq && coq_makefile -f _CoqProject -o Makefile >/dev/null && timeout 3000 make -j16 )
 if [ -n "$HT_REPO" ]; then sed -i "s#path = \"[^\"]*/\(packages\|contracts\)/#path = \"$HT_REPO/\1/#" harness/Cargo.toml; fi
 ( cd harness && [ -f Cargo.lock ] || cp /repo/Cargo.lock . ; \
-  RUSTFLAGS="--cfg halotrade_zone_halotrade_contracts_verif" timeout 3000 cargo build --offline --quiet )
+  RUSTFLAGS="--cfg halotrade_zone_halotrade_contracts_verif" timeout 3000 cargo build --offline --quiet && \
+  RUSTFLAGS="--cfg halotrade_zone_halotrade_contracts_verif" timeout 3000 cargo build --offline --quiet --profile deploy )
 mkdir -p build evidence replays
 echo setup-ok
